@@ -7,31 +7,72 @@ it means for the truncation step of `ingest_line_utf8`.
 namespace MaxLen
 open SideBySide
 
-/-- The generated function, arm by arm (exact characterisation for all values). -/
+open Generated.Usize
+set_option linter.unusedSimpArgs false
+set_option linter.unusedVariables false
+
+/-! The proof scripts below serve both shapes of the source: `config_max_line_length` /
+`adapt_wrap_max_lines_argument` with plain `+ *` (as pinned) and with `saturating_add` / `saturating_mul`
+(notes/fix-wrap-max-lines-overflow.diff). Where the two need different steps the script is a
+`first | <pinned> | <saturating>`; every statement is one that holds of both. `U` below = `usizeMax`. -/
+
+/-- The generated function, arm by arm, for all values: the value of the last arm is `max mll F` with
+`min E U ≤ F ≤ E`, `E = n panes + max (a quarter of n panes) (one pane)` — `F = E` with plain arithmetic,
+`F = min E U` with saturating arithmetic. -/
 theorem cml_spec (n mll w : Nat) :
+    ∃ F, min (w / 2 * n + max (w / 2 * n / 4) (w / 2)) usizeMax ≤ F ∧ F ≤ w / 2 * n + max (w / 2 * n / 4) (w / 2) ∧
+      Generated.configMaxLineLength n mll w =
+        if n = 1 then mll
+        else if n = 0 ∨ mll = 0 then 0
+        else max mll F := by
+  unfold Generated.configMaxLineLength
+  first
+    | refine ⟨w / 2 * n + max (w / 2 * n / 4) (w / 2), ?_, ?_, ?_⟩
+      · omega
+      · omega
+      · by_cases h1 : n = 1
+        · simp [h1]
+        · by_cases h0 : n = 0
+          · simp [h0]
+          · by_cases hm : mll = 0
+            · simp [h1, h0, hm]
+            · simp only [h1, h0, hm, if_false, false_or]
+              have : w / 2 * n * 250 / 1000 = w / 2 * n / 4 := by omega
+              rw [this]
+    | refine ⟨min (w / 2 * n + max (w / 2 * n / 4) (w / 2)) usizeMax, ?_, ?_, ?_⟩
+      · omega
+      · omega
+      · by_cases h1 : n = 1
+        · simp [h1]
+        · by_cases h0 : n = 0
+          · simp [h0]
+          · by_cases hm : mll = 0
+            · simp [h1, h0, hm]
+            · simp only [h1, h0, hm, if_false, false_or, satAdd, satMul]
+              congr 1
+              omega
+
+/-- Exact value wherever the formula stays within `usize` (both shapes). -/
+theorem cml_exact (n mll w : Nat) (hU : w / 2 * n + max (w / 2 * n / 4) (w / 2) ≤ usizeMax) :
     Generated.configMaxLineLength n mll w =
       if n = 1 then mll
       else if n = 0 ∨ mll = 0 then 0
       else max mll (w / 2 * n + max (w / 2 * n / 4) (w / 2)) := by
-  unfold Generated.configMaxLineLength
-  by_cases h1 : n = 1
-  · simp [h1]
-  · by_cases h0 : n = 0
-    · simp [h0]
-    · by_cases hm : mll = 0
-      · simp [h1, h0, hm]
-      · simp only [h1, h0, hm, if_false, false_or]
-        have : w / 2 * n * 250 / 1000 = w / 2 * n / 4 := by omega
-        rw [this]
+  obtain ⟨F, h1, h2, h⟩ := cml_spec n mll w
+  have : F = w / 2 * n + max (w / 2 * n / 4) (w / 2) := by omega
+  rw [h, this]
 
 theorem cml_unlimited (mll w : Nat) : Generated.configMaxLineLength 0 mll w = 0 := by
-  rw [cml_spec]; simp
+  obtain ⟨F, _, _, h⟩ := cml_spec 0 mll w
+  rw [h]; simp
 
 theorem cml_one (mll w : Nat) : Generated.configMaxLineLength 1 mll w = mll := by
-  rw [cml_spec]; simp
+  obtain ⟨F, _, _, h⟩ := cml_spec 1 mll w
+  rw [h]; simp
 
 theorem cml_zero_iff (n mll w : Nat) : Generated.configMaxLineLength n mll w = 0 ↔ n = 0 ∨ mll = 0 := by
-  rw [cml_spec]
+  obtain ⟨F, _, _, h⟩ := cml_spec n mll w
+  rw [h]
   by_cases h1 : n = 1
   · simp [h1]
   · by_cases h : n = 0 ∨ mll = 0
@@ -42,7 +83,8 @@ theorem cml_zero_iff (n mll w : Nat) : Generated.configMaxLineLength n mll w = 0
 
 theorem cml_ge_requested (n mll w : Nat) :
     Generated.configMaxLineLength n mll w = 0 ∨ mll ≤ Generated.configMaxLineLength n mll w := by
-  rw [cml_spec]
+  obtain ⟨F, _, _, h⟩ := cml_spec n mll w
+  rw [h]
   by_cases h1 : n = 1
   · simp [h1]
   · by_cases h : n = 0 ∨ mll = 0
@@ -50,22 +92,145 @@ theorem cml_ge_requested (n mll w : Nat) :
     · simp only [h1, h, if_false]
       right; omega
 
+/-- `n ≥ 2` rows, non-zero option: between `max mll (min E U)` and `max mll E`. -/
 theorem cml_rows (n mll w : Nat) (hn : 2 ≤ n) (hm : 0 < mll) :
-    Generated.configMaxLineLength n mll w = max mll (w / 2 * n + max (w / 2 * n / 4) (w / 2)) := by
-  rw [cml_spec]
+    max mll (min (w / 2 * n + max (w / 2 * n / 4) (w / 2)) usizeMax) ≤ Generated.configMaxLineLength n mll w ∧
+    Generated.configMaxLineLength n mll w ≤ max mll (w / 2 * n + max (w / 2 * n / 4) (w / 2)) := by
+  obtain ⟨F, hlo, hhi, h⟩ := cml_spec n mll w
+  rw [h]
   have h1 : n ≠ 1 := by omega
-  have h : ¬ (n = 0 ∨ mll = 0) := by omega
-  simp [h1, h]
+  have h' : ¬ (n = 0 ∨ mll = 0) := by omega
+  simp only [h1, h', if_false]
+  omega
 
-/-- For `n ≥ 2` rows: at least one pane more than `n` full panes, and at least 125 % of `n` panes. -/
+/-- For `n ≥ 2` rows: at least one pane more than `n` full panes, and at least 125 % of `n` panes — or
+`usize::MAX` where those exceed it (saturating arithmetic). -/
 theorem cml_enough (n mll w : Nat) (hn : 2 ≤ n) (hm : 0 < mll) :
-    (n + 1) * (w / 2) ≤ Generated.configMaxLineLength n mll w ∧
-    w / 2 * n + w / 2 * n / 4 ≤ Generated.configMaxLineLength n mll w ∧
+    min ((n + 1) * (w / 2)) usizeMax ≤ Generated.configMaxLineLength n mll w ∧
+    min (w / 2 * n + w / 2 * n / 4) usizeMax ≤ Generated.configMaxLineLength n mll w ∧
     mll ≤ Generated.configMaxLineLength n mll w := by
-  rw [cml_rows n mll w hn hm]
+  have hr := (cml_rows n mll w hn hm).1
   have e : (n + 1) * (w / 2) = w / 2 * n + w / 2 := by
     rw [Nat.add_mul, Nat.mul_comm]; simp
   refine ⟨?_, ?_, ?_⟩ <;> omega
+
+/-! ### `--wrap-max-lines N`: `WrapConfig.max_lines` -/
+
+/-- `N + 1`, or `usize::MAX` where `N + 1` exceeds it (both shapes of `adapt_wrap_max_lines_argument`). -/
+theorem maxLinesOfArg_some (N : Nat) :
+    min (N + 1) usizeMax ≤ maxLinesOfArg (some N) ∧ maxLinesOfArg (some N) ≤ N + 1 := by
+  show min (N + 1) usizeMax ≤ Generated.wrapMaxLinesOfNumber N ∧ Generated.wrapMaxLinesOfNumber N ≤ N + 1
+  unfold Generated.wrapMaxLinesOfNumber
+  try unfold satAdd
+  omega
+
+theorem usizeMax_eq : usizeMax = 18446744073709551615 := rfl
+
+theorem maxLinesOfArg_some_ne_zero (N : Nat) : maxLinesOfArg (some N) ≠ 0 := by
+  have := maxLinesOfArg_some N
+  have := usizeMax_eq
+  omega
+
+theorem maxLinesOfArg_some_eq_one (N : Nat) : maxLinesOfArg (some N) = 1 ↔ N = 0 := by
+  have := maxLinesOfArg_some N
+  have := usizeMax_eq
+  omega
+
+theorem maxLinesOfArg_some_ge_two (N : Nat) (hN : 1 ≤ N) : 2 ≤ maxLinesOfArg (some N) := by
+  have := maxLinesOfArg_some N
+  have := usizeMax_eq
+  omega
+
+/-- `--wrap-max-lines N`, `N ≥ 1`, non-zero option, pane `p = w / 2`: the value is at least `N + 2` panes, at least
+125 % of `N + 1` panes — or `usize::MAX` where those exceed it — and at least the option. -/
+theorem cml_enough_arg (N mll w : Nat) (hN : 1 ≤ N) (hm : 0 < mll) :
+    min ((N + 2) * (w / 2)) usizeMax ≤ Generated.configMaxLineLength (maxLinesOfArg (some N)) mll w ∧
+    min (w / 2 * (N + 1) + w / 2 * (N + 1) / 4) usizeMax ≤ Generated.configMaxLineLength (maxLinesOfArg (some N)) mll w ∧
+    mll ≤ Generated.configMaxLineLength (maxLinesOfArg (some N)) mll w := by
+  have hb := maxLinesOfArg_some N
+  obtain ⟨h1, h2, h3⟩ := cml_enough (maxLinesOfArg (some N)) mll w (maxLinesOfArg_some_ge_two N hN) hm
+  generalize maxLinesOfArg (some N) = n at hb h1 h2 h3 ⊢
+  refine ⟨?_, ?_, h3⟩
+  · by_cases hs : n = N + 1
+    · subst hs; exact h1
+    · -- saturated: max_lines = usize::MAX < N + 1
+      by_cases hp : w / 2 = 0
+      · rw [hp]; simp
+      · have : n + 1 ≤ (n + 1) * (w / 2) := Nat.le_mul_of_pos_right _ (by omega)
+        omega
+  · by_cases hs : n = N + 1
+    · subst hs; exact h2
+    · by_cases hp : w / 2 = 0
+      · rw [hp]; simp
+      · have : n ≤ w / 2 * n := Nat.le_mul_of_pos_left _ (by omega)
+        omega
+
+/-! ### The arithmetic of a build with overflow checks (`Generated.configMaxLineLengthChecked`) -/
+
+/-- Whenever the overflow-checked evaluation returns a value it is the value of the `Nat` translation: the
+proviso "no intermediate value exceeds `usize::MAX`" made precise (both shapes). -/
+theorem cmlChecked_sound (n mll w v : Nat)
+    (h : Generated.configMaxLineLengthChecked n mll w = some v) : v = Generated.configMaxLineLength n mll w := by
+  unfold Generated.configMaxLineLengthChecked at h
+  unfold Generated.configMaxLineLength
+  by_cases h1 : n = 1
+  · simp_all
+  · by_cases h0 : n = 0
+    · simp_all
+    · by_cases hm : mll = 0
+      · simp_all
+      · simp only [h1, h0, hm, if_false] at h ⊢
+        simp [ckAdd, ckMul, ckDiv, ckRem, ckSatAdd, ckSatMul, ckSatSub, ckMax, ckMin, ck2, Option.bind_eq_some_iff] at h
+        first
+          | exact h.symm
+          | grind
+
+/-- If the corner `(usize::MAX, usize::MAX, usize::MAX)` evaluates without a panic (false with plain `+ *`, true
+with saturating arithmetic: `decide`), every triple does. -/
+theorem cmlChecked_total (hfix : (Generated.configMaxLineLengthChecked usizeMax usizeMax usizeMax).isSome = true)
+    (n mll w : Nat) : ∃ v, Generated.configMaxLineLengthChecked n mll w = some v := by
+  first
+    | exact absurd hfix (by decide)
+    | unfold Generated.configMaxLineLengthChecked
+      by_cases h1 : n = 1
+      · simp [h1]
+      · by_cases h0 : n = 0
+        · simp [h0]
+        · by_cases hm : mll = 0
+          · simp [h1, h0, hm]
+          · simp [h1, h0, hm, ckAdd, ckMul, ckDiv, ckRem, ckSatAdd, ckSatMul, ckSatSub, ckMax, ckMin, ck2]
+
+/-- … and the value is a `usize` again. -/
+theorem cml_le_usizeMax (hfix : (Generated.configMaxLineLengthChecked usizeMax usizeMax usizeMax).isSome = true)
+    (n mll w : Nat) (hm : mll ≤ usizeMax) : Generated.configMaxLineLength n mll w ≤ usizeMax := by
+  first
+    | exact absurd hfix (by decide)
+    | unfold Generated.configMaxLineLength
+      by_cases h1 : n = 1
+      · simp [h1, hm]
+      · by_cases h0 : n = 0
+        · simp [h0]
+        · by_cases hm0 : mll = 0
+          · simp [h1, h0, hm0]
+          · simp only [h1, h0, hm0, if_false, satAdd, satMul]
+            omega
+
+theorem wmlChecked_sound (n v : Nat) (h : Generated.wrapMaxLinesOfNumberChecked n = some v) :
+    v = Generated.wrapMaxLinesOfNumber n := by
+  unfold Generated.wrapMaxLinesOfNumberChecked at h
+  unfold Generated.wrapMaxLinesOfNumber
+  simp [ckAdd, ckSatAdd, ck2] at h
+  first
+    | exact h.symm
+    | exact h.2.symm
+
+theorem wmlChecked_total (hfix : (Generated.wrapMaxLinesOfNumberChecked usizeMax).isSome = true) (n : Nat) :
+    ∃ v, Generated.wrapMaxLinesOfNumberChecked n = some v ∧ v ≤ usizeMax := by
+  first
+    | exact absurd hfix (by decide)
+    | unfold Generated.wrapMaxLinesOfNumberChecked
+      simp [ckSatAdd, ck2, satAdd]
+      omega
 
 /-- `n` rows of a line width `lw ≤ pane + 1` hold fewer columns than the value computed for `n` rows of
 that pane (one column for the `+`/`-`/blank the raw line starts with, one to spare for the mark). -/
